@@ -1,0 +1,38 @@
+//go:build verif
+
+// Contracts for message framing on stream transports and reply matching (client.go, server.go).
+// Comment-only file.  Concurrency (C12's "no mixing", C13) is outside per-function contracts.
+
+package dns
+
+// stream framing: a message is sent as its length in two octets followed by its octets; messages longer
+// than 65535 octets are refused, not mangled
+//@ func (*Conn).Write [C12]
+//@   requires co != nil && co.Conn != nil
+//@   ensures big: len(p) > 65535 ==> ret1 != nil
+//@   assert at "return co.Conn.Write(msg)" frame: len(p) <= 65535 && len(msg) == len(p) + 2 && msg[0] == len(p) / 256 && msg[1] == len(p) % 256 && (forall k in 0..len(p) :: msg[2+k] == p[k])
+//@ func (*response).Write [C12]
+//@   requires w != nil
+//@   may-panic
+//@   assert at "return w.tcp.Write(msg)" frame: len(m) <= 65535 && len(msg) == len(m) + 2 && msg[0] == len(m) / 256 && msg[1] == len(m) % 256 && (forall k in 0..len(m) :: msg[2+k] == m[k])
+
+// reading: the two-octet length decides how many octets are read (io.ReadFull: all of them or an error)
+//@ func (*Conn).Read [C12]
+//@   requires co != nil
+//@   ensures n: ret1 == nil ==> 0 <= ret0 && ret0 <= len(p)
+//@ func (*Conn).ReadMsgHeader [C12]
+//@   requires co != nil
+//@   ensures hdr: ret1 == nil ==> len(ret0) >= 12
+//@ func (*Server).readTCP [C12]
+//@   requires srv != nil && conn != nil
+//@   exit whole: ret1 == nil ==> len(ret0) == length
+
+// a client exchange never hands back a reply with another ID as a success
+//@ func (*Conn).ReadMsg [C12]
+//@   opt no-safety
+//@   requires co != nil
+//@   ensures some: ret1 == nil ==> ret0 != nil
+//@ func (*Client).ExchangeWithConnContext [C12]
+//@   opt no-safety
+//@   requires c != nil && m != nil && co != nil
+//@   exit id: err == nil ==> r != nil && r.Id == m.Id
